@@ -3,6 +3,7 @@ package main
 import (
 	"fmt"
 	"go/token"
+	"go/types"
 	"sort"
 	"strings"
 
@@ -203,4 +204,68 @@ func runFD03(p *Prog, r *RuleRun) {
 	}
 	r.Check(before, key, posOf(p, w.ifi), w.desc+"; every length it accepts the read paths accept; the guard precedes buffering",
 		"the write-path size guard does not dominate the buffering of the entry: an oversized entry is already in the commit buffer when it is refused")
+
+	// the other end of the range: a read path that refuses an empty payload needs a write path that refuses it too
+	zeroGuards := func(set map[*ssa.Function]bool) []*ssa.If {
+		var out []*ssa.If
+		for fn := range set {
+			if pkgRelOf(p, fn) != "segment" {
+				continue
+			}
+			live := liveBlocks(fn)
+			for _, b := range fn.Blocks {
+				if !live[b] || len(b.Instrs) == 0 {
+					continue
+				}
+				ifi, ok := b.Instrs[len(b.Instrs)-1].(*ssa.If)
+				if !ok {
+					continue
+				}
+				bo, ok := ifi.Cond.(*ssa.BinOp)
+				if !ok {
+					continue
+				}
+				c, ok := bo.Y.(*ssa.Const)
+				if !ok || c.Value == nil {
+					continue
+				}
+				lv, _ := linearForm(bo.X)
+				isLen := false
+				if lc, ok := lv.(*ssa.Call); ok && isBuiltinCall(lc, "len") {
+					// the length of a byte slice (a payload), not of an offsets table or a batch
+					if sl, ok := lc.Call.Args[0].Type().Underlying().(*types.Slice); ok {
+						if bt, ok := sl.Elem().Underlying().(*types.Basic); ok && bt.Kind() == types.Uint8 {
+							isLen = true
+						}
+					}
+				} else if fieldLoadName(lv) == "len" {
+					isLen = true
+				}
+				if !isLen {
+					continue
+				}
+				var zeroEdge *ssa.BasicBlock
+				switch {
+				case bo.Op == token.EQL && c.Int64() == 0, bo.Op == token.LEQ && c.Int64() == 0, bo.Op == token.LSS && c.Int64() == 1:
+					zeroEdge = b.Succs[0]
+				case bo.Op == token.NEQ && c.Int64() == 0, bo.Op == token.GTR && c.Int64() == 0, bo.Op == token.GEQ && c.Int64() == 1:
+					zeroEdge = b.Succs[1]
+				}
+				if zeroEdge != nil && blockRejects(zeroEdge) {
+					out = append(out, ifi)
+				}
+			}
+		}
+		sort.Slice(out, func(i, j int) bool { return out[i].Pos() < out[j].Pos() })
+		return out
+	}
+	rz, wz := zeroGuards(readSet), zeroGuards(writeSet)
+	switch {
+	case len(rz) == 0:
+		r.OK("read-lower-limit", p.Position(readRoots[0].Pos()), "no read path refuses an empty payload (the write path accepts one)")
+	case len(wz) > 0:
+		r.OK("read-lower-limit", posOf(p, rz[0]), "a read path refuses an empty payload and so does the write path")
+	default:
+		r.Fail("read-lower-limit", posOf(p, rz[0]), "a read path refuses a zero-length payload with an error, but the write path buffers, syncs and acknowledges zero-length entries: such an entry (a codec that encodes an empty log to nothing) is accepted by StoreLogs and can never be read back")
+	}
 }
